@@ -35,6 +35,9 @@ type Case struct {
 	Harness string         `json:"harness"`
 	Draws   []DrawVal      `json:"draws"`
 	Params  map[string]int `json:"params"`
+	// Retries > 0: a run that ends "ok" is repeated up to Retries times (the
+	// outcome depends on a map iteration order Go randomises).
+	Retries int `json:"retries,omitempty"`
 }
 
 type Result struct {
@@ -263,6 +266,10 @@ func RunReplay(t *testing.T, harnesses map[string]func()) {
 			r.Outcome, r.Msg = "panic", "unknown harness"
 		} else {
 			runOne(c, r, fn)
+			for try := 0; try < c.Retries && r.Outcome == "ok"; try++ {
+				*r = Result{Idx: idx, Harness: c.Harness, Outcome: "ok", Observes: map[string]string{}}
+				runOne(c, r, fn)
+			}
 		}
 		sort.Strings(r.Reach)
 		out, _ := json.Marshal(r)
